@@ -277,6 +277,12 @@ APPEND["C06"] = (" Handlers with a duration: LifecycleRun.tla adds events send(l
                  "Mcp-Protocol-Version header class x body _meta class x method (1,080 cases, header and body crossed), HHolds(c, HExpected(c)) checked by TLC, every case run in "
                  "process on stateful and stateless handlers (monitor LifecycleHttpMon). LifecycleInd.tla carries an inductive invariant over all 833 letters and unbounded "
                  "sequence length that Apalache discharges (opt-in hook, ~2 min).")
+APPEND["C17"] = (" Identifiers carry a class per feature kind (size x flavour, 58 classes: tool names up to the 128-byte limit; prompt names, resource URIs and URI templates "
+                 "short / 150-200 B / ~1 KB / 4-6.5 KB; percent-escapes, query strings, non-ASCII, JSON-escaped characters, template expressions) and the class of the identifier "
+                 "that ended the last non-final page - the unique id inside the cursor - is a state variable; a second TLC graph (kind x page size x class map; thorough adds one "
+                 "class among short identifiers at every position and page size 4) is edge-covered so that every class ends a non-final page, and is removed behind its cursor, "
+                 "for every kind and page size (174 triples quick / 232 thorough, counted again in the log of the real run); the strict trace spec also pins the class of every "
+                 "boundary identifier and the size range of every concrete id.")
 REPLACE = {
     "C14": ("BearerDefs.tla holds the value classes, the code-shaped Expected and the declarative property Holds (iff admission, status by cause, challenge content, "
             "same token info); Bearer.tla holds the case space of 92 354 cases: the core product of 81 600 (header shapes x verifier outcomes incl. error-with-info x "
